@@ -326,7 +326,7 @@ func (e *Eng) eval(x Expr, env *Env, cur, old *State) *Val {
 	case *ESel:
 		return e.evalSel(n, env, cur, old)
 	case *EIdx:
-		base := e.eval(n.X, env, cur, old)
+		base := e.autoDerefSlice(e.eval(n.X, env, cur, old), cur)
 		idx := e.eval(n.I, env, cur, old)
 		return e.indexVal(base, idx, cur)
 	case *ESlice:
@@ -643,7 +643,7 @@ func (e *Eng) evalCall(n *ECall, env *Env, cur, old *State) *Val {
 	}
 	switch n.Fn {
 	case "len", "cap":
-		a := e.eval(n.Args[0], env, cur, old)
+		a := e.autoDerefSlice(e.eval(n.Args[0], env, cur, old), cur)
 		if a.Typ == nil {
 			if a.Sort == "BSeq" {
 				return ival(sx("bseq_len", a.T))
@@ -1006,4 +1006,21 @@ func (e *Eng) declMath() {
 (declare-fun m_log10 (Real) Real)
 (declare-fun m_log2 (Real) Real)
 `)
+}
+
+// autoDerefSlice: the name of an address-taken slice or map variable denotes its cell; where a slice (map) is needed
+// (len, cap, indexing) the cell's content is meant, as for selectors on address-taken structs.
+func (e *Eng) autoDerefSlice(v *Val, cur *State) *Val {
+	if v == nil || v.Typ == nil {
+		return v
+	}
+	pt := derefType(v.Typ)
+	if pt == nil {
+		return v
+	}
+	switch types.Unalias(pt).Underlying().(type) {
+	case *types.Slice, *types.Map:
+		return &Val{T: e.load(cur, e.locOfPtr(v)), Typ: pt, KnownLen: -1}
+	}
+	return v
 }
